@@ -1,6 +1,7 @@
 package lexer
 
 import (
+	"github.com/graphql-go/graphql/verifhook"
 	"bytes"
 	"fmt"
 	"regexp"
@@ -480,6 +481,7 @@ func printCharCode(code rune) string {
 }
 
 func readToken(s *source.Source, fromPosition int) (Token, error) {
+	verifhook.Count(verifhook.LexerReadToken)
 	body := s.Body
 	bodyLength := len(body)
 	position, runePosition := positionAfterWhitespace(body, fromPosition)
